@@ -9,6 +9,7 @@
 
 use crate::{
     PageId,
+    multithreading::coordinator::TransactionCoordinator,
     runtime::{
         RuntimeError, RuntimeResult,
         context::{ThreadContext, TransactionLogger},
@@ -643,6 +644,11 @@ impl DdlExecutor {
 
         let snapshot = self.ctx.snapshot();
         let tree_builder = self.ctx.tree_builder();
+
+        // Another open transaction may create the same name (neither sees the other's catalog row):
+        // the name joins the write set, the second committer is refused.
+        self.ctx
+            .record_key_write(TransactionCoordinator::CATALOG_NAMES, instr.table_name.as_bytes())?;
 
         self.ctx
             .catalog()
